@@ -324,6 +324,7 @@ def pair_rule(ctx, syn):
         ctx.anchor_missing(r, "enum Constraint / enum Filter")
         return
     shapes = model.shapes()
+    asym = []
     decided = 0
     undecided = {}
     table = []
@@ -360,7 +361,12 @@ def pair_rule(ctx, syn):
             except qpair.Undecided as e:
                 undecided[label] = "pattern: %s" % e
                 continue
-            if parm is None or sarm is None or is_error_arm(parm) or is_error_arm(sarm):
+            p_ok = parm is not None and not is_error_arm(parm)
+            s_ok = sarm is not None and not is_error_arm(sarm)
+            if p_ok != s_ok:
+                # accepted in one position, refused (error arm / catch-all) in the other: the query works or fails depending on where the constraint is written
+                asym.append((label, "first-position-only" if p_ok else "later-position-only", (parm or sarm).get("l")))
+            if not (p_ok and s_ok):
                 continue
             try:
                 P = model.body(parm["body"], bind_env(model, pb, shape))
@@ -387,6 +393,9 @@ def pair_rule(ctx, syn):
                     ctx.report(r, key, "the two implementations of the constraint disagree for %s: written first it selects { x | %s } (line %s), written later it keeps { x | %s } (line %s): the result depends on the order of the constraints" % (
                         key, qpair.fmt(cp), parm.get("l"), qpair.fmt(cs), sarm.get("l")), Q, sarm.get("l"), {"source": qpair.fmt(cp), "filter": qpair.fmt(cs)})
     ctx.floor(r, decided, 60, "constraint pairs decided")
+    for label, side, line in sorted(set(asym)):
+        r.hit("asym:" + label)
+        ctx.report(r, "asymmetric:%s|%s" % (label, side), "the constraint %s is evaluated when it is written %s and refused (error arm) otherwise: whether the query works depends on the order of its constraints" % (label, "first" if side.startswith("first") else "after another constraint"), Q, line, {"kind": side})
     r.notes.append("pairs decided: %d; not decided: %d" % (decided, len(undecided)))
     # every pair is decidable on the reference tree: one that is not any more is reported (failing closed), it is not dropped
     for k_, v_ in sorted(undecided.items()):
